@@ -394,7 +394,8 @@ ROUND3 = {
            "compared with 0, an is_expensive predicate on two items of one object (315 shapes).",
     "C13": "Round 3: Declare / EvalDeclared - the query object is built by one step and evaluated by a later one.",
     "C14": "Round 3: Ontology.tla Die(D) - part of the population dies between assertions (three schemas; CanDie), the survivors' later "
-           "assertions must produce exactly their closure.",
+           "assertions must produce exactly their closure; a dense dead population (collected, not swept) whose addresses the suffix's "
+           "instances are made to reuse in the same role.",
     "C15": "Round 3: teaches [= knows with its own inverse taught_by [= known_by; every fifth sequence on falsy instances.",
     "C16": "Round 3: every fifth two-write sequence on falsy instances.",
     "C17": "Round 3: K3 as a Role[K1] with two mandatory one-to-one fields.",
